@@ -132,6 +132,15 @@ macro_rules! lexical_nse_task {
 }
 
 /// 单元测试
+/// Verification hook: compiled only with `--cfg arcj137442_narsese_rs_verif`, never in normal builds.
+/// * One expansion of [`lexical_nse`] with a string literal, so that a static analysis of the compiled crate
+///   sees what the macro expands to (the literal is handed to the lexical parser unchanged).
+#[cfg(arcj137442_narsese_rs_verif)]
+#[allow(dead_code)]
+pub(crate) fn __verif_lexical_nse_expansion() -> crate::lexical::Narsese {
+    crate::lexical_nse!("<A --> B>.")
+}
+
 #[cfg(test)]
 mod tests {
     use crate::{
